@@ -11,6 +11,8 @@ pub const S_MEM: u8 = 0;
 pub const S_GI_ACPI: u8 = 1;
 pub const S_GI_PCI: u8 = 2;
 pub const S_RINTC: u8 = 3;
+/// an RINTC affinity structure obtained through the derived Default (20 zero bytes: not self-describing)
+pub const S_RINTC_DEFAULT: u8 = 4;
 
 pub fn real_mem(f: &Fill, mask: u16) -> srat::MemoryAffinity {
     let mut m = srat::MemoryAffinity::new(f.u32(0), f.u64(1), f.u64(2));
@@ -72,6 +74,9 @@ pub fn srat_ref_entry(w: &mut W, op: &Op) {
             }
             w.u32((m & 3) as u32).u32(0);
         }
+        S_RINTC_DEFAULT => {
+            w.z(20);
+        }
         S_RINTC => {
             // ACPI 6.6 type 7, length 20: reserved(2), proximity domain(4), ACPI processor UID(4), flags(4), clock domain(4)
             w.u8(7).u8(20).u16(0).u32(if m & 2 != 0 { f.u32(2) } else { 0 }).b(&f.arr::<4>(0)).u32((m & 1) as u32).u32(f.u32(1));
@@ -87,7 +92,7 @@ impl Table for Srat {
         vec![8] // table Revision: pinned to the baseline, not judged
     }
     fn kinds(&self) -> &'static [&'static str] {
-        &["memory_affinity", "generic_initiator_acpi", "generic_initiator_pci", "rintc_affinity"]
+        &["memory_affinity", "generic_initiator_acpi", "generic_initiator_pci", "rintc_affinity", "rintc_affinity(RintcAffinity::default())"]
     }
     fn alphabet(&self, _c: &Ctor, _h: &[Op], level: u8) -> Vec<Op> {
         let mut v = vec![];
@@ -100,7 +105,13 @@ impl Table for Srat {
                 v.push(Op::new(k, if j % 2 == 0 { full } else { 0 }, *f));
             }
         }
+        if level >= 1 && !_h.iter().any(|o| o.k == S_RINTC_DEFAULT) {
+            v.push(Op::new(S_RINTC_DEFAULT, 0, 0));
+        }
         v
+    }
+    fn unwalkable(&self, ops: &[Op]) -> bool {
+        ops.iter().any(|o| o.k == S_RINTC_DEFAULT)
     }
     fn run(&self, c: &Ctor, ops: &[Op], obs: &mut dyn FnMut(usize, &dyn Aml, &[u32])) {
         let mut t = srat::SRAT::new(c.oem_id(), c.oem_table_id(), c.oem_rev());
@@ -109,6 +120,7 @@ impl Table for Srat {
             match op.k {
                 S_MEM => t.add_memory_affinity(real_mem(&op.fill, op.shape)),
                 S_GI_ACPI | S_GI_PCI => t.add_generic_initiator(real_gi(op.k, &op.fill, op.shape)),
+                S_RINTC_DEFAULT => t.add_rintc_affinity(srat::RintcAffinity::default()),
                 _ => t.add_rintc_affinity(real_rintc_aff(&op.fill, op.shape)),
             }
             obs(i + 1, &t, &[]);
@@ -122,7 +134,7 @@ impl Table for Srat {
         for op in ops {
             let o = w.len();
             srat_ref_entry(&mut w, op);
-            ents.push(Ent { off: o, ty: [1, 5, 5, 7][op.k as usize], len: w.len() - o });
+            ents.push(Ent { off: o, ty: [1, 5, 5, 7, 0][op.k as usize], len: w.len() - o });
         }
         ref_finish(&mut w);
         RefOut { image: w.0, ents, ..Default::default() }
@@ -152,6 +164,7 @@ impl Table for Srat {
             S_MEM => vec![U(32), U(64), U(64)],
             S_GI_ACPI => vec![U(32), A(8), A(4)],
             S_GI_PCI => vec![U(32), U(16), U(8), E(32), E(8)],
+            S_RINTC_DEFAULT => vec![],
             _ => vec![A(4), U(32), U(32)],
         }
     }
@@ -159,6 +172,7 @@ impl Table for Srat {
         match k {
             S_MEM => (0..8).collect(),
             S_RINTC => vec![0, 1, 2, 3],
+            S_RINTC_DEFAULT => vec![0],
             _ => (0..4).collect(),
         }
     }
@@ -261,6 +275,8 @@ pub struct Hmat;
 pub const H_MPD: u8 = 0;
 pub const H_SLL: u8 = 1;
 pub const H_MSC: u8 = 2;
+/// a memory proximity domain structure obtained through the derived Default (40 zero bytes: not self-describing)
+pub const H_MPD_DEFAULT: u8 = 3;
 
 /// matrix dimensions: from the shape bits, or from the explicit size overrides of a sweep program
 pub fn sll_dims(f: &Fill, shape: u16) -> (usize, usize) {
@@ -384,6 +400,9 @@ pub fn hmat_ref_entry(w: &mut W, op: &Op) {
             // type 0, reserved(2), length 40, flags(2) bit0 = initiator PD valid, reserved(2), initiator PD, memory PD, reserved(20)
             w.u16(0).u16(0).u32(40).u16(1).u16(0).u32(f.u32(0)).u32(f.u32(1)).z(20);
         }
+        H_MPD_DEFAULT => {
+            w.z(40);
+        }
         H_SLL => ref_sll(w, f, op.shape),
         H_MSC => {
             // type 2, reserved(2), length, memory PD(4), reserved(4), cache size(8), attributes(4), reserved(2), n handles(2), handles
@@ -405,7 +424,7 @@ impl Table for Hmat {
         vec![8] // table Revision: pinned to the baseline, not judged
     }
     fn kinds(&self) -> &'static [&'static str] {
-        &["memory_proximity", "system_locality", "memory_side_cache"]
+        &["memory_proximity", "system_locality", "memory_side_cache", "memory_proximity(MemoryProximityDomain::default())"]
     }
     fn alphabet(&self, _c: &Ctor, _h: &[Op], level: u8) -> Vec<Op> {
         let mut v = vec![];
@@ -429,7 +448,13 @@ impl Table for Hmat {
             v.push(Op::new(H_MSC, 120, fills(level)[0]));
             v.push(Op::new(H_SLL, sll_shape(9, 10, 1), fills(level)[0]));
         }
+        if !_h.iter().any(|o| o.k == H_MPD_DEFAULT) {
+            v.push(Op::new(H_MPD_DEFAULT, 0, 0));
+        }
         v
+    }
+    fn unwalkable(&self, ops: &[Op]) -> bool {
+        ops.iter().any(|o| o.k == H_MPD_DEFAULT)
     }
     fn run(&self, c: &Ctor, ops: &[Op], obs: &mut dyn FnMut(usize, &dyn Aml, &[u32])) {
         let mut t = hmat::HMAT::new(c.oem_id(), c.oem_table_id(), c.oem_rev());
@@ -437,6 +462,7 @@ impl Table for Hmat {
         for (i, op) in ops.iter().enumerate() {
             match op.k {
                 H_MPD => t.add_memory_proximity(hmat::MemoryProximityDomain::new(op.fill.u32(0), op.fill.u32(1))),
+                H_MPD_DEFAULT => t.add_memory_proximity(hmat::MemoryProximityDomain::default()),
                 H_SLL => t.add_system_locality(real_sll(&op.fill, op.shape)),
                 _ => t.add_memory_side_cache(real_msc(&op.fill, op.shape)),
             }
@@ -451,7 +477,7 @@ impl Table for Hmat {
         for op in ops {
             let o = w.len();
             hmat_ref_entry(&mut w, op);
-            ents.push(Ent { off: o, ty: op.k as u32, len: w.len() - o });
+            ents.push(Ent { off: o, ty: if op.k == H_MPD_DEFAULT { 0 } else { op.k as u32 }, len: w.len() - o });
         }
         ref_finish(&mut w);
         RefOut { image: w.0, ents, ..Default::default() }
@@ -538,6 +564,7 @@ impl Table for Hmat {
         use FT::*;
         match k {
             H_MPD => vec![U(32), U(32)],
+            H_MPD_DEFAULT => vec![],
             H_SLL => vec![E(4), E(6), E(12), U(64), U(16), U(32), U(32)],
             _ => {
                 let mut v = vec![U(32), U(64), E(4), E(4), E(3), E(3), U(16)];
@@ -561,6 +588,7 @@ impl Table for Hmat {
                 v
             }
             H_MSC => vec![0, 1, 2, 3, 120],
+            H_MPD_DEFAULT => vec![0],
             _ => vec![0],
         }
     }
